@@ -17,7 +17,8 @@ EXTENDS Integers, Sequences, FiniteSets, TLC
 MaxOf(a, b) == IF a >= b THEN a ELSE b
 MinOf(a, b) == IF a <= b THEN a ELSE b
 PollingModes == {"polling", "interval_or_polling"}
-IntervalModes == {"interval", "interval_or_polling", "interval_or_each", "interval_or_all", "interval_or_nth"}
+IntervalModes == {"interval", "interval_or_polling", "interval_or_each", "interval_or_all", "interval_or_nth",
+                  "interval_or_after_each", "interval_or_after_all", "interval_or_after_nth"}
 
 (* ---- Part 1: the property ---- *)
 (* a yield of (p, o): in offset order, nothing skipped, nothing twice *)
